@@ -413,3 +413,27 @@ PROPS["C20"] = dict(
     tools=True,
     budget_s=dict(quick=900, thorough=3000),
 )
+
+
+# ---------------------------------------------------------------- additions of round 12 (kept apart so that the texts above stay readable)
+def _app(pid, text):
+    PROPS[pid]["level_text"] += text
+
+
+_NATIVE = ("every signature the key can make by its own nature (ECDSA over SHA-256/384/512 as r||s and as DER, RSA PKCS#1 and PSS over each hash, "
+           "EdDSA), made by the reference")
+_app("C01", "; a family of configurations whose key and algorithm do not go together (11 keys x every asymmetric algorithm setkey takes): under the pinned header, " + _NATIVE +
+     " -- accepted only where the reference admits the key for the algorithm and verifies the signature; the rotation histories are doubled by a checker holding the private item that verifies just before the public-key checker")
+_app("C02", "; six more signature kinds per cell: " + _NATIVE + ", under every header that names a real algorithm")
+_app("C03", "; the secp256k1 key and ES256K are in the tables (a provider that cannot sign with a key must refuse, not emit an empty signature)")
+_app("C05", "; the rotation histories are doubled by a checker holding the private item that verifies just before the public-key checker")
+_app("C06", "; fourteen checker configurations: nine matching ones and five that setkey accepts although key and algorithm do not go together (ES256 with a secp256k1 or brainpoolP256r1 key, "
+     "ES256K and EdDSA with a P-256 key, RS256 with an RSA-PSS key); besides the exact block counts of the jwt_set_alloc and libcrypto allocators the live-block count of the whole process heap "
+     "(sanitizer allocation hooks: GnuTLS, nettle and gmp included) must not grow with every call (confirmed over forty repetitions)")
+_app("C09", "; every below-floor and cross-family cell also verifies " + _NATIVE + " under the cell's header")
+_app("C12", "; the rotation histories are doubled by a checker holding the private item that verifies just before the public-key checker (what kind of key the previous verification held must not matter)")
+_app("C15", "; two receivers more: the token of a builder that already holds {a:5,b:\"y\"} (the map starts non-empty), after which the builder's own map must read back unchanged")
+_app("C16", "; the kids k2/kb/kz are 257 characters long and share their first 256; look-ups also of the bare prefix, one character less, another last character, one character more and the short aliases")
+_app("C18", "; the sequential result of each body is the reference whatever it is (bodies that do not behave as designed are counted in the evidence, not treated as a harness failure)")
+_app("C20", "; lists of tokens failing for different reasons (bad signature, not a token, expired, not yet valid, both) in runs of 1-9, 15-17, 31-33, 63-65, 127-129, 255-257 and 512, "
+     "and 1-4 tokens of one cause mixed with 0-33 (thorough 0-64) of another")
